@@ -27,8 +27,9 @@ ASSUMPTIONS = [
     "inbound ABORT) happening at most once at any point x one blocked caller kind (connect wait always during the handshake); "
     "a further Close() racing with everything in td_families_close2; callers do not interact with each other except through "
     "the association (one caller kind per family keeps the sets small: 3 300 .. 40 000 states)",
-    "termination is refuted, not assumed away, when T1 may exhaust its retransmissions and the handshake completes late "
-    "(c09_all_terminate_refuted_after_t1_exhaustion); the harness reproduces it on the implementation",
+    "T1 exhaustion during the handshake is covered (td_families_t1 is part of td_all_families); the faithful model refuted "
+    "termination there twice, both refutations were reproduced on the implementation and repaired in /repo (D27 aeda016, "
+    "D31 c7c80cb); 'close() of a timer is final' is an assumption of the model, tied to the code by TestVerifSimTeardownTimerFinal",
 ]
 LEVEL_TEXT = ("Coq theorems over every interleaving of the goroutine / caller automata of a finite model of one association: "
               "no reachable state without an enabled step is unfinished (all goroutines ended, all blocked callers returned, "
@@ -40,8 +41,9 @@ LEVEL_TEXT = ("Coq theorems over every interleaving of the goroutine / caller au
               "every caller's outcome at every crash point must be an outcome of that caller in a final state of the model "
               "family; the monitors look for blocked callers, live goroutines, open timers, writes after close, leaks.")
 LEVEL_NOTE = ("Partial by design: scheduler fairness, channel/Cond/Mutex semantics, timers and net.Conn are modelled. Trusted: "
-              "Coq kernel + VM, hand model Teardown.v, extraction, simulator. The refutation (T1 exhaustion followed by a late "
-              "handshake completion) is a theorem about the model and an observed failure of the implementation.")
+              "Coq kernel + VM, hand model Teardown.v, extraction, simulator. The two former refutations (T1 exhaustion: late "
+              "handshake completion, failure callback racing with the completion) were observed on the implementation, repaired "
+              "there, and are positive theorems now; their scenarios stay as regressions.")
 TECHNIQUE = "Coq proof (finite-state closure + rank certificates by vm_compute) + crash-point enumeration on simulated associations"
 
 _classify = simcommon.classify(PROP)
@@ -97,8 +99,13 @@ def correspondence(ctx):
     _crashpoints(ctx, "teardown-crashpoints",
                  {"VERIF_TD_STRIDE": ctx.scale(2, 1), "VERIF_TD_REPEAT": ctx.scale(1, 3)})
     simcommon.sim_monitor(ctx, "read-deadline-goroutine", "TestVerifSimTeardownDeadline", {}, "SIMTDDEADLINE")
-    # the model's residual refutation (T1 failure callback racing with the completion of the handshake): the Go
-    # scheduler decides, so this is a search with a budget; it stops at the first observed failure
+    # the terminal read error (and the abort cause) survives a read deadline that expires after the stream ended
+    simcommon.sim_monitor(ctx, "read-error-after-deadline", "TestVerifSimTeardownDeadlineErr", {}, "SIMTDDEADLINEERR")
+    # close() of rtxTimer / ackTimer is final (an assumption of the model and of closeAllTimers): all call
+    # sequences over start/stop/close up to length 5
+    simcommon.sim_monitor(ctx, "closed-timers-stay-closed", "TestVerifSimTeardownTimerFinal", {}, "SIMTDTIMER")
+    # regression for D31 (T1 failure callback racing with the completion of the handshake, fixed by c7c80cb): the
+    # Go scheduler decides the order, so this is a search with a budget; it stops at the first observed failure
     simcommon.sim_monitor(ctx, "t1-callback-race", "TestVerifSimTeardownT1Race", {"VERIF_N": ctx.scale(12000, 60000)}, "SIMTDRACE")
 
 
